@@ -110,7 +110,7 @@ class AttributesConverter(object):
             location_message.degrees_clockwise_from_magnetic_north = \
                 location_attributes.degrees_clockwise_from_magnetic_north
         if location_attributes.axolotl_sender_key_distribution_message is not None:
-            location_message._axolotl_sender_key_distribution_message = \
+            location_message.axolotl_sender_key_distribution_message = \
                 location_attributes.axolotl_sender_key_distribution_message
         if location_attributes.jpeg_thumbnail is not None:
             location_message.jpeg_thumbnail = location_attributes.jpeg_thumbnail
